@@ -92,8 +92,8 @@ def cadAxisym (axis : Nat) (ps : List α) : Option (MSurf α) :=
         some (mkCone apex.x apex.y apex.z (fabs tana) unitv.x unitv.y unitv.z (some nappe))
   | _ => none
 
-/-- `normalize_surface` + `mcnp2cad[mnemonic]` (the parameter counts are those of `N_PARAMS`) -/
-def cadOf (e1 e2 : α) (mn : String) (ps : List α) : Option (MSurf α) :=
+/-- `mcnp2cad[mnemonic]` (+ the three-point form of `normalize_surface`) on a card whose parameter count was accepted -/
+def cadOfRaw (e1 e2 : α) (mn : String) (ps : List α) : Option (MSurf α) :=
   match mn, ps with
   | "p", [a, b, c, d] => planeCard a b c d
   | "p", [x1, y1, z1, x2, y2, z2, x3, y3, z3] =>
@@ -142,6 +142,26 @@ def cadOf (e1 e2 : α) (mn : String) (ps : List α) : Option (MSurf α) :=
   | "y", ps => cadAxisym 1 ps
   | "z", ps => cadAxisym 2 ps
   | _, _ => none
+
+/-- the table `N_PARAMS` of `normalize_surface` (plus the generic forms `c`, `k` produced for macrobody facets):
+the parameter counts each mnemonic accepts; an unknown mnemonic has no entry -/
+def surfaceArity (mn : String) : Option (List Nat) :=
+  match mn with
+  | "p" => some [4, 9] | "px" => some [1] | "py" => some [1] | "pz" => some [1]
+  | "so" => some [1] | "s" => some [4] | "sx" => some [2] | "sy" => some [2] | "sz" => some [2]
+  | "c/x" => some [3] | "c/y" => some [3] | "c/z" => some [3] | "cx" => some [1] | "cy" => some [1] | "cz" => some [1]
+  | "k/x" => some [4, 5] | "k/y" => some [4, 5] | "k/z" => some [4, 5]
+  | "kx" => some [2, 3] | "ky" => some [2, 3] | "kz" => some [2, 3]
+  | "sq" => some [10] | "gq" => some [10] | "tx" => some [5, 6] | "ty" => some [5, 6] | "tz" => some [5, 6]
+  | "x" => some [2, 4] | "y" => some [2, 4] | "z" => some [2, 4]
+  | "c" => some [7] | "k" => some [7]
+  | _ => none
+
+/-- `normalize_surface` (parameter count checked against the table first) + `mcnp2cad[mnemonic]` -/
+def cadOf (e1 e2 : α) (mn : String) (ps : List α) : Option (MSurf α) :=
+  match surfaceArity mn with
+  | some ns => if ns.contains ps.length then cadOfRaw e1 e2 mn ps else none
+  | none => none
 
 /-- `convert_plane` on a frame (point `p`, normal `u`) -/
 def convertPlane (p u : V3 α) : TSurf α :=
